@@ -124,8 +124,10 @@ def run_case(rec, pool, dimcoords, ci, carry, kc, seed, g=None, ds=None, sizes="
     try:
         with warnings.catch_warnings():
             warnings.simplefilter("ignore")
-            r = getattr(g, op)(da, "X", to=to, keep_coords=kc, boundary=bnd)
-            base = getattr(g, op)(xr.DataArray(vals, dims=["t", din], name="foo"), "X", to=to, keep_coords=kc, boundary=bnd)
+            # keep_coords=False is the documented default: left out in part of the cases
+            kckw = {} if (not kc and (ci + len(pool)) % 2) else dict(keep_coords=kc)
+            r = getattr(g, op)(da, "X", to=to, boundary=bnd, **kckw)
+            base = getattr(g, op)(xr.DataArray(vals, dims=["t", din], name="foo"), "X", to=to, boundary=bnd, **kckw)
     except Exception as e:
         rec.violation("labels", "raise:" + exc_sig(e), case, "array", f"{type(e).__name__}: {e}"[:200])
         return
